@@ -62,3 +62,25 @@ func verifYield(point, replicaName string) {
 	}
 	h.Yield(point, replicaName)
 }
+
+// VerifProbeResult delivers a probe outcome to the live instance of the named
+// process exactly as its prober's completion callback would. It reports whether
+// such an instance was found.
+func (p *ProjectRunner) VerifProbeResult(name string, readiness, ok, fatal bool, msg string) bool {
+	proc := p.getRunningProcess(name)
+	if proc == nil {
+		return false
+	}
+	if readiness {
+		if proc.readyProber == nil {
+			return false
+		}
+		proc.onReadinessCheckEnd(ok, fatal, msg)
+	} else {
+		if proc.liveProber == nil {
+			return false
+		}
+		proc.onLivenessCheckEnd(ok, fatal, msg)
+	}
+	return true
+}
